@@ -279,7 +279,8 @@ def fault_cases(draw):
             bad += ["1.5", "2e", "3.0.1"]
         val = draw(st.sampled_from(bad))
         return dict(kind=kind, where=where, tokens=["--%s=%s" % (name, val)], line="%s=%s" % (name, val))
-    return dict(kind=kind, where="cli", tokens=[], line=draw(st.sampled_from(["nonexistent.cfg", "sub/dir/none.cfg", "dir"])))
+    return dict(kind=kind, where="cli", tokens=[], line=draw(st.sampled_from(["nonexistent.cfg", "sub/dir/none.cfg", "dir", "./default.cfg", "sub/default.cfg",
+                                                                                "default.cfg.bak", "mydefault.cfg", "../default.cfg", "Default.cfg"])))
 
 
 def subs(tier):
